@@ -4,6 +4,7 @@ import (
 	"context"
 	"fmt"
 	"runtime"
+	"strings"
 	"sync"
 	"testing"
 	"testing/synctest"
@@ -89,6 +90,92 @@ func TestCloseRightAfterAdd(t *testing.T) {
 				sec.Case(true, vk.FP(name), "close-right-after-add")
 				sec.Sample(func() any { return name })
 			}
+		}
+	}
+}
+
+// Close around the START of Run: Close before Run was ever called, Close racing the first instructions of Run, and then
+// Close again (a deferred second Close is the usual shape). Every call returns: when the bubble is quiescent no Close
+// and no Run is still pending, and no goroutine of the limiter is left.
+func TestCloseAroundRunStart(t *testing.T) {
+	sec := vk.Sec("CloseAroundRunStart")
+	yields := []int{0, 1, 2, 3, 5, 8, 13, 21}
+	for _, order := range []string{"close,run,close", "close,run,add,close", "run||close,close", "run||close,add,close", "close,close,run,close"} {
+		for _, procs := range []int{0, 1} {
+			name := fmt.Sprintf("closearoundrunstart{order=%s gomaxprocs=%d}", order, procs)
+			var errs vk.Errs
+			berr := vk.Bubble(t, name, func() {
+				if procs > 0 {
+					defer runtime.GOMAXPROCS(runtime.GOMAXPROCS(procs))
+				}
+				for i := 0; i < vk.Pick(300, 6000); i++ {
+					init, max := 10*time.Millisecond, 40*time.Millisecond
+					rl, err := ratelimiting.NewCoalescing(ratelimiting.OptionsCoalescing{InitialDelay: &init, MaxDelay: &max})
+					if err != nil {
+						errs.Failf("NewCoalescing: %v", err)
+						return
+					}
+					rl.(ratelimiting.RateLimiterWithTicker).WithTicker(clocktesting.NewFakeClock(time.Date(2024, 1, 1, 0, 0, 0, 0, time.UTC)))
+					ch := make(chan struct{}, 8)
+					ctx, cancel := context.WithCancel(context.Background())
+					var pending sync.WaitGroup
+					var returned [8]bool
+					var what [8]string
+					n := 0
+					call := func(name string, f func()) {
+						k := n
+						n++
+						what[k] = name
+						pending.Add(1)
+						go func() { defer pending.Done(); f(); returned[k] = true }()
+					}
+					run := func() { _ = rl.Run(ctx, ch) }
+					steps := strings.Split(order, ",")
+					for _, st := range steps {
+						switch st {
+						case "close":
+							call("Close", rl.Close)
+							synctest.Wait()
+						case "run":
+							call("Run", run)
+							synctest.Wait()
+						case "add":
+							rl.Add()
+							synctest.Wait()
+						case "run||close":
+							call("Run", run)
+							for y := 0; y < yields[i%len(yields)]; y++ {
+								runtime.Gosched()
+							}
+							call("Close", rl.Close)
+							synctest.Wait()
+						}
+					}
+					// everything that can happen has happened; Run may legitimately still be running only if no Close came after it
+					for k := 0; k < n; k++ {
+						if !returned[k] {
+							errs.Failf("round %d: call %d (%s) of the sequence has not returned although nothing in the bubble can run any more (calls: %v)", i, k, what[k], what[:n])
+							break
+						}
+					}
+					if c, st := vk.HelpersParked("events/ratelimiting."); c > 0 && errs.Err() == nil {
+						errs.Failf("round %d: after the last Close returned a goroutine of the limiter is still parked:\n%s", i, st)
+					}
+					cancel()
+					if errs.Err() != nil {
+						return // (a call that is stuck for good stays stuck: the bubble reports it as well)
+					}
+					pending.Wait()
+				}
+			})
+			if e := errs.Err(); e != nil {
+				t.Fatalf("C09 coalescing rate limiter violated: %v\ncase: %s", e, name)
+			}
+			if berr != nil {
+				t.Fatalf("C09 coalescing rate limiter violated: %v\ncase: %s", berr, name)
+			}
+			sec.Case(true, vk.FP(name), "close-around-run-start")
+			sec.Sample(func() any { return name })
 		}
 	}
 }
